@@ -328,6 +328,18 @@ class QuantDriver:
             stats["unconvertible"] = stats.get("unconvertible", 0) + 1
             return mm
         sign = ev["n"]
+        inexact = any(r["u"]["p10"] < 0 for r in (self.sys["pool"][ev["i"] - 1], self.sys["pool"][ev["j"] - 1]))
+        if sign == 0 and inexact:
+            # 10**-k is not a binary fraction: equal physical values may differ in the last bit (a rounding tie, which
+            # the statement excludes).  Only coherence is judged: the answers must be the truth table of SOME order.
+            stats["ties-coherence-only"] = stats.get("ties-coherence-only", 0) + 1
+            for s in (-1, 0, 1):
+                w = {"==ab": s == 0, "!=ab": s != 0, "<ab": s < 0, "<=ab": s <= 0, ">ab": s > 0, ">=ab": s >= 0,
+                     "==ba": s == 0, "!=ba": s != 0, "<ba": s > 0, "<=ba": s >= 0, ">ba": s < 0, ">=ba": s <= 0}
+                if all(res[k] == w[k] for k in w):
+                    return mm
+            mm.append(self._mm("C12", "cmp:incoherent-at-a-tie", "%s: %s" % (desc, res)))
+            return mm
         want = {"==ab": sign == 0, "!=ab": sign != 0, "<ab": sign < 0, "<=ab": sign <= 0, ">ab": sign > 0, ">=ab": sign >= 0,
                 "==ba": sign == 0, "!=ba": sign != 0, "<ba": sign > 0, "<=ba": sign >= 0, ">ba": sign < 0, ">=ba": sign <= 0}
         stats["ok"] = stats.get("ok", 0) + 1
